@@ -188,6 +188,70 @@ def fixes_arg():
     return "".join("1" if FIXES[k] else "0" for k in ["f1", "f2", "f3", "f4", "f5", "f2b", "f8", "f10", "f14", "f12"])
 
 
+def run_model_parallel(cases, model):
+    """Pipe the case lines through the Lean driver.  Large streams are cut into contiguous slices that are
+    evaluated by several driver processes at once (the driver is single-threaded); a slice starts at a `def`
+    line when the stream has any, so that every `tok` line finds its dictionary in its own slice."""
+    lines = open(cases).read().split("\n")
+    if lines and lines[-1] == "":
+        lines.pop()
+    jobs = min(12, os.cpu_count() or 1)
+    slices = [lines]
+    if len(lines) >= 200 and jobs > 1:
+        has_def = any(l.startswith("def ") for l in lines)
+        starts = [i for i, l in enumerate(lines) if (l.startswith("def ") if has_def else True)]
+        if starts and starts[0] != 0:
+            starts = [0] + starts
+        total = sum(len(l) for l in lines) or 1
+        target = total / jobs
+        cuts, acc, cur = [0], 0, 0
+        sset = set(starts)
+        for i, l in enumerate(lines):
+            if i in sset and i != 0 and acc - cur >= target:
+                cuts.append(i)
+                cur = acc
+            acc += len(l)
+        cuts.append(len(lines))
+        slices = [lines[a:b] for a, b in zip(cuts, cuts[1:]) if b > a]
+        if has_def:
+            # safety: every tok line must name a dictionary defined in its own slice
+            for sl in slices:
+                seen = set()
+                for l in sl:
+                    t = l.split(" ", 3)
+                    if t[0] == "def" and len(t) > 1:
+                        seen.add(t[1])
+                    elif t[0] == "tok" and len(t) > 2 and t[2] not in seen:
+                        slices = [lines]
+                        break
+                if len(slices) == 1:
+                    break
+    procs = []
+    for k, sl in enumerate(slices):
+        pin = f"{cases}.part{k}"
+        pout = f"{model}.part{k}"
+        with open(pin, "w") as f:
+            f.write("\n".join(sl) + "\n")
+        fi = open(pin)
+        fo = open(pout, "w")
+        procs.append((subprocess.Popen([VMODEL, "--fixes", fixes_arg()], env=ENV, stdin=fi, stdout=fo, stderr=subprocess.PIPE,
+                                       text=True), fi, fo, pin, pout))
+    with open(model, "w") as out:
+        for pr, fi, fo, pin, pout in procs:
+            try:
+                _, err = pr.communicate(timeout=7200)
+            except subprocess.TimeoutExpired:
+                pr.kill()
+                infra("vmodel timed out")
+            fi.close()
+            fo.close()
+            if pr.returncode != 0:
+                infra("vmodel failed: " + (err or "")[:2000])
+            out.write(open(pout).read())
+            os.unlink(pin)
+            os.unlink(pout)
+
+
 def run_stream(pid, idx, hargs, per_case_timeout=20, binary=None):
     """Run harness + model for one stream; returns list of (input_line, impl, model, extra)."""
     d = os.path.join(WORK, pid)
@@ -205,11 +269,7 @@ def run_stream(pid, idx, hargs, per_case_timeout=20, binary=None):
     if r.returncode != 0:
         # the harness died (abort/hang inside the implementation): last printed case is the suspect
         return None, cases
-    with open(cases) as fi, open(model, "w") as fo:
-        r = subprocess.run([VMODEL, "--fixes", fixes_arg()], env=ENV, stdin=fi, stdout=fo,
-                           stderr=subprocess.PIPE, timeout=7200, text=True)
-    if r.returncode != 0:
-        infra("vmodel failed: " + (r.stderr or "")[:2000])
+    run_model_parallel(cases, model)
     res = []
     with open(cases) as fi, open(model) as fo:
         for a, b in zip(fi, fo):
